@@ -56,7 +56,12 @@ Inductive op :=
 | ConnClose (cid : N) (dialler : bool)
 | CloseConnection (cid : N) (dialler : bool)
 | PingOp (node : N) (ok : bool)
-| Shutdown (node : N).
+| Shutdown (node : N)
+(* any other exported method of Conn on one end: CancelRead (the peer then refuses further data,
+   and a later stream Close reports an error), SetDeadline / SetReadDeadline / SetWriteDeadline,
+   Read or Write after Close.  None of them touches the bookkeeping: what Conn.Close and
+   CloseConnection release does not depend on whether closing the QUIC stream succeeds. *)
+| StreamOp (cid : N) (dialler : bool).
 
 Inductive ppoint := PDoubleCloseChan | PNilAdvert.
 Inductive outcome := Ok (s : st) | Reject | Panic (p : ppoint).
@@ -253,6 +258,8 @@ Definition step (v : variant) (s : st) (o : op) : outcome :=
   | Shutdown node =>
     let s' := set_down s (node :: down s) in
     Ok (match v with Pinned => mark_released s' | Fixed => s' end)
+  | StreamOp cid _ =>
+    match lookup cid (conns s) with Some _ => Ok s | None => Reject end
   end.
 
 Fixpoint run (v : variant) (s : st) (h : list op) : outcome :=
